@@ -80,8 +80,10 @@ class SolvedBlock(Block, Parent):
                                                inputs, outputs, Js, options, self._get_H_U_factored(Js))
 
     def _jacobian(self, ss, inputs, outputs, T, Js, options):
-        return self.block.solve_jacobian(ss, OrderedSet(self.unknowns), OrderedSet(self.targets),
-                                    inputs, outputs, T, Js, options, self._get_H_U_factored(Js))[outputs]
+        J = self.block.solve_jacobian(ss, OrderedSet(self.unknowns), OrderedSet(self.targets),
+                                      inputs, outputs, T, Js, options, self._get_H_U_factored(Js))
+        # an inner output that no input or unknown affects has no Jacobian: absent, as in CombinedBlock._jacobian
+        return J[outputs & J.outputs]
 
     def _partial_jacobians(self, ss, inputs, outputs, T, Js, options):
         # call it on the child first
